@@ -348,6 +348,13 @@ def rule_r4(chk, rid="C01-R4"):
     found = sorted(c.split(".")[1] for c in consts)
     chk.ob(rid, "fords.solutions.Solution.create_deviation_solution[zeroed == additive constants]", (zeroed == found) if zeroed else None,
            f"zeroed {zeroed}; additive constants of the recursions {found}" if zeroed else "no zeroing statement recognised", m.loc(f), sure=bool(zeroed) and set(zeroed) < set(found))   # an additive constant left in: cannot be an artefact of under-reading the recursions
+    # the deviation solution is a shallow clone: zeroing must re-bind the clone's slots, never write into the arrays it shares with the
+    # stored solution (the next ordinary simulation would run without its constants)
+    from .. import effects as _fx
+    muts = [(a, how, ln) for a, how, ln in _fx.direct_mutations(f)]
+    chk.ob(rid, "fords.solutions.Solution.create_deviation_solution[stored solution untouched]", not muts,
+           "no store, in-place operator or in-place method reaches an array of self (directly, through an alias, or through the shallow clone)" if not muts
+           else f"line {muts[0][2]}: {muts[0][1]} writes into self.{muts[0][0]}, which the stored solution shares with the clone", m.loc(f), sure=True)
     for q in ("simulate_flat", "_simulate_measurement", "_simulate_conditional"):
         g = sm.func(q)
         c = calls_to(g, "model_v._gets_solution")
@@ -469,6 +476,10 @@ def run(chk):
     chk.guard(c06.rule_r7, chk, rid="C01-R8", modules=("irispie.fords.simulators", "irispie.fords.shock_simulators"))
     from .. import unused as _unused
     chk.guard(_unused.apply, chk, "C01-R91")
+    from .. import basis as _basis
+    chk.guard(_basis.apply, chk, "C01-R10")
+    from .. import variants as _variants
+    chk.guard(_variants.apply_wrappers, chk, "C01-R9", {"simultaneous", "fords", "steadiers", "stacked_time"})
     from .. import args as _args
     chk.guard(_args.apply, chk, "C01-R90", {'fords'}, 1)
     chk.assumptions = [
